@@ -142,6 +142,13 @@ QString regexText(const QJsonObject &d)
     if (rx == "any") return ".*";
     if (rx == "alt") return lit + "|" + lit2;
     if (rx == "icontains") return "(?i)" + lit;
+    if (rx == "xcontains") {
+        // extended pattern syntax: white space in the pattern is ignored, '#' starts a comment
+        QString spaced;
+        for (const QChar c : fromUnits(d["lit"].toArray()))
+            spaced += QRegularExpression::escape(QString(c)) + QStringLiteral("  ");
+        return spaced + QStringLiteral("# the literal, spelled out");
+    }
     if (rx == "backref") return "([ab])\\1";            // a doubled 'a' or 'b' (numbered back-reference)
     if (rx == "group") return "(" + lit + ")+$";         // a capturing group with a quantifier
     return lit;
@@ -221,6 +228,8 @@ HandlerPtr makeLeaf(int id, const QJsonObject &d)
     if (kind == "level") return LevelFilterPtr::create(typeOf(d["min"].toString()));
     if (kind == "dup") return DuplicateFilterPtr::create();
     if (kind == "regex") {
+        if (d["rx"].toString() == "xcontains")
+            return RegExpFilterPtr::create(QRegularExpression(regexText(d), QRegularExpression::ExtendedPatternSyntaxOption));
         if (d["ctor"].toString() == "qre")
             return RegExpFilterPtr::create(QRegularExpression(regexText(d)));
         return RegExpFilterPtr::create(regexText(d));
@@ -246,6 +255,8 @@ bool fluentLeaf(SimplePipeline &p, int id, const QJsonObject &d)
     else if (kind == "filter") p.filter(filterFn(id, d));
     else if (kind == "level") p.filterLevel(typeOf(d["min"].toString()));
     else if (kind == "dup") p.filterDuplicate();
+    else if (kind == "regex" && d["rx"].toString() == "xcontains")
+        p << makeLeaf(id, d);  // pattern options cannot be passed through filter(QString): the stream operator instead
     else if (kind == "regex") p.filter(regexText(d));
     else if (kind == "cat") p.filterCategory(d["rtext"].toString());
     else if (kind == "fmt") p.format(fmtFn(id, d));
